@@ -95,6 +95,18 @@ pub fn exec(t: &[&str]) -> Option<String> {
         ["c16_parse", h] => Some(parse_line(&unhex(h))),
         ["c16_ser", d] => Some(ser_line(d)),
         ["c16_subfield", h] => Some(subfield_line(&unhex(h))),
+        // C02 for the sub-field codec: `<bytes> <reported len> <partial: consumed:eq|ne | err> <strict: eq|ne|err>` of the field
+        // described by <dump>, partial parse with <suffix> appended
+        ["c16_subfield_rt", d, suf] => Some(match parse_field(d) {
+            None => "bad-desc".into(),
+            Some(f) => {
+                let mut b = vec![]; let reported = monero::consensus::encode::Encodable::consensus_encode(&f, &mut b).unwrap();
+                let all = [b.clone(), unhex(suf)].concat();
+                let partial = match monero::consensus::encode::deserialize_partial::<SubField>(&all) { Ok((g, n)) => format!("{}:{}", n, if g == f { "eq" } else { "ne" }), Err(_) => "err".into() };
+                let strict = match deserialize::<SubField>(&b) { Ok(g) => if g == f { "eq" } else { "ne" }, Err(_) => "err" };
+                format!("{} {} {} {}", hex(&b), reported, partial, strict)
+            }
+        }),
         _ => None,
     }
 }
@@ -198,6 +210,39 @@ fn any_field(rng: &mut Rng, keys: &Keys) -> GF {
         4 => GF::Gate(blob(rng, false)),
         5 => GF::Pad(*rng.pick(&[0usize, 1, 2, 100, 253, 254, 255, 256, 257, 300, 509, 510, 511, 512])),
         _ => wf_field(rng, keys, false),
+    }
+}
+
+/// C02 on sub-fields: every kind at its boundary sizes (padding 0..=255 incl. the documented maximum, merge-mining depths
+/// of every varint width, nonce / blob lengths around 127/128 and 16383/16384, 0..129 additional keys), alone and followed
+/// by a suffix. Direct checks: reported length = bytes written; strict parse returns the field; partial parse returns the
+/// field and consumes exactly the encoding (for paddings shorter than 255 only when nothing or no zero byte follows — the
+/// decoder is greedy, C16_padding_greedy).
+pub fn run_subfield_rt(o: &mut Out, rng: &mut Rng, n: usize) {
+    let keys = Keys::new(rng, 12);
+    for it in 0..n {
+        let f: GF = match it % 8 {
+            0 => GF::Pad(*rng.pick(&[0usize, 1, 2, 100, 126, 127, 128, 253, 254, 255])),
+            1 => GF::MM(depth(rng), rng.arr32(), None),
+            2 => GF::MM(*rng.pick(&[127u64, 128, 129, 16383, 16384, u64::MAX]), rng.arr32(), None),
+            _ => wf_field(rng, &keys, it % 16 == 7),
+        };
+        let sf = match to_sub(&f) { Some(x) => x, None => continue };
+        let d = dump_field(&sf);
+        let is_pad = matches!(sf, SubField::Padding(_));
+        let short_pad = matches!(sf, SubField::Padding(k) if k < 255);
+        let suffix: Vec<u8> = match rng.below(4) { 0 => vec![], 1 => vec![1], 2 => { let k = rng.range(1, 40) as usize; let mut v = rng.bytes(k); if short_pad { v[0] |= 1; } v }, _ => if short_pad { vec![] } else { vec![0, 0, 7] } };
+        o.stat(&format!("subfield_rt.{}{}", &d[..1], if suffix.is_empty() { "" } else { "+suffix" }));
+        let got = o.op(format!("c16_subfield_rt {} {}", d, hex(&suffix)), true);
+        let p: Vec<&str> = got.split(' ').collect();
+        if p.len() != 4 { o.direct(false, "c02: sub-field round trip produced no result", d.clone(), got.clone(), "4 tokens".into()); continue; }
+        let len = unhex(p[0]).len();
+        o.direct(p[1] == len.to_string(), "c02: SubField::consensus_encode reports the number of bytes written", d.clone(), p[1].into(), len.to_string());
+        o.direct(p[3] == "eq", "c02: deserialize(serialize(sub-field)) == sub-field", d.clone(), p[3].into(), "eq".into());
+        // a short padding followed by a non-zero byte is an error by design (greedy padding); everything else consumes exactly its encoding
+        let want = if short_pad && !suffix.is_empty() { "err".to_string() } else { format!("{}:eq", len) };
+        o.direct(p[2] == want, "c02: deserialize_partial(serialize(sub-field) ++ suffix) returns the sub-field and the exact byte count", format!("{} suffix={}", d, hex(&suffix)), p[2].into(), want);
+        let _ = is_pad;
     }
 }
 
